@@ -31,6 +31,9 @@ struct Gen {
     dup: bool,
     /// bytes stream: collections of zero-width elements only get U8/U16 lengths and arrays <= 2^16
     hostile: bool,
+    /// remaining type nodes / value nodes for the current case (keeps deep cases small)
+    tbudget: i64,
+    vbudget: i64,
 }
 
 fn gen_name(g: &mut Gen) -> String {
@@ -117,7 +120,8 @@ fn gen_leaf(g: &mut Gen) -> Type {
 
 /// `depth` = remaining nesting budget; the result nests at most `depth` constructors deep.
 fn gen_type(g: &mut Gen, depth: u32) -> Type {
-    if depth <= 1 || g.r.chance(2, 7) { return gen_leaf(g); }
+    g.tbudget -= 1;
+    if depth <= 1 || g.tbudget <= 0 || g.r.chance(2, 7) { return gen_leaf(g); }
     let d = depth - 1;
     let pick_size = |g: &mut Gen, elem_zero: bool| -> SizeLength {
         if g.hostile && elem_zero { *g.r.pick(&[SizeLength::U8, SizeLength::U16]) } else { *g.r.pick(&SIZES) }
@@ -331,7 +335,9 @@ fn gen_ident(r: &mut Rng, max: usize) -> String {
     (0..n).map(|_| *r.pick(&['a', 'b', 'c', 'X', 'Y', '0', '9', '_', '-', '!', '~', '#'])).collect()
 }
 
-fn count_for(r: &mut Rng, s: &SizeLength, small_elems: bool) -> usize {
+fn count_for(g: &mut Gen, s: &SizeLength, small_elems: bool) -> usize {
+    if g.vbudget <= 0 { return g.r.below(2) as usize; }
+    let r = &mut g.r;
     match r.below(30) {
         0 if small_elems => match s { SizeLength::U8 => *r.pick(&[255usize, 256]), _ => *r.pick(&[256usize, 300]) },
         _ => r.below(4) as usize,
@@ -355,6 +361,7 @@ fn gen_fields_value(g: &mut Gen, f: &Fields) -> Value {
 
 /// A JSON value the schema accepts (using the whole accepted grammar, not only the printed form).
 fn gen_value(g: &mut Gen, t: &Type) -> Value {
+    g.vbudget -= 1;
     match t {
         Type::Unit => match g.r.below(5) { 0 => Value::Null, 1 => json!([]), 2 => json!({}), 3 => json!("unit"), _ => json!(0) },
         Type::Bool => Value::Bool(g.r.chance(1, 2)),
@@ -413,16 +420,16 @@ fn gen_value(g: &mut Gen, t: &Type) -> Value {
         }
         Type::Pair(a, b) => Value::Array(vec![gen_value(g, a), gen_value(g, b)]),
         Type::List(s, e) | Type::Set(s, e) => {
-            let n = count_for(&mut g.r, s, min_width(e) <= 2 && type_depth(e) <= 2);
+            let n = count_for(g, s, min_width(e) <= 2 && type_depth(e) <= 2);
             Value::Array((0..n).map(|_| gen_value(g, e)).collect())
         }
         Type::Map(s, k, v) => {
-            let n = count_for(&mut g.r, s, min_width(k) + min_width(v) <= 2 && type_depth(k) + type_depth(v) <= 3);
+            let n = count_for(g, s, min_width(k) + min_width(v) <= 2 && type_depth(k) + type_depth(v) <= 3);
             Value::Array((0..n).map(|_| Value::Array(vec![gen_value(g, k), gen_value(g, v)])).collect())
         }
         Type::Array(n, e) => {
             // arrays declared longer than 64 elements get a (rejected) short value
-            let n = (*n).min(64) as usize;
+            let n = if g.vbudget <= 0 { (*n).min(4) as usize } else { (*n).min(64) as usize };
             Value::Array((0..n).map(|_| gen_value(g, e)).collect())
         }
         Type::Struct(f) => gen_fields_value(g, f),
@@ -592,9 +599,10 @@ fn short(s: &str) -> String { s.chars().take(160).collect() }
 
 // ------------------------------------------------------------------------------------------ mode rt
 fn mode_rt(seed: u64, n: u64, depth: u32) {
-    let mut g = Gen { r: Rng::new(seed ^ 0x10), dup: false, hostile: false };
+    let mut g = Gen { r: Rng::new(seed ^ 0x10), dup: false, hostile: false, tbudget: 0, vbudget: 0 };
     for i in 0..n {
         g.dup = i % 23 == 22;
+        g.tbudget = 40; g.vbudget = 400;
         let t = match i % 10 { 0 => gen_deep(&mut g, depth), 1 => gen_leaf(&mut g), _ => { let d = g.r.range(1, depth as u64) as u32; gen_type(&mut g, d) } };
         let mut j = gen_value(&mut g, &t);
         let mut mutation = "none";
@@ -641,8 +649,9 @@ fn mode_rt(seed: u64, n: u64, depth: u32) {
 
 // ------------------------------------------------------------------------------------------ mode bytes
 fn mode_bytes(seed: u64, n: u64, depth: u32) {
-    let mut g = Gen { r: Rng::new(seed ^ 0x20), dup: false, hostile: true };
+    let mut g = Gen { r: Rng::new(seed ^ 0x20), dup: false, hostile: true, tbudget: 0, vbudget: 0 };
     for i in 0..n {
+        g.tbudget = 40; g.vbudget = 400;
         let t = match i % 10 { 0 => gen_deep(&mut g, depth), 1 | 2 => gen_leaf(&mut g), _ => { let d = g.r.range(1, depth as u64) as u32; gen_type(&mut g, d) } };
         // start from a valid encoding when one can be produced
         let valid = { let j = gen_value(&mut g, &t); guarded(|| t.serial_value(&j)).ok().and_then(|x| x.ok()) };
@@ -776,7 +785,7 @@ fn module_checks(m: &VersionedModuleSchema, line: &mut Value) {
 }
 
 fn mode_schema(seed: u64, n: u64, depth: u32) {
-    let mut g = Gen { r: Rng::new(seed ^ 0x30), dup: false, hostile: false };
+    let mut g = Gen { r: Rng::new(seed ^ 0x30), dup: false, hostile: false, tbudget: 0, vbudget: 0 };
     // testdata files
     let dir = std::path::PathBuf::from(std::env::var("VERIF_REPO").unwrap_or_else(|_| "/repo".to_string())).join("smart-contracts/testdata/schemas");
     let mut files: Vec<_> = std::fs::read_dir(&dir).map(|d| d.filter_map(|e| e.ok()).map(|e| e.path()).collect()).unwrap_or_default();
@@ -802,6 +811,7 @@ fn mode_schema(seed: u64, n: u64, depth: u32) {
     }
     for i in 0..n {
         g.dup = i % 11 == 10;
+        g.tbudget = 60; g.vbudget = 400;
         match i % 4 {
             0 => {
                 let t = if i % 8 == 0 { gen_deep(&mut g, depth) } else { let d = g.r.range(1, depth as u64) as u32; gen_type(&mut g, d) };
@@ -952,14 +962,21 @@ fn mode_leaf(seed: u64, n: u64) {
 fn mode_obs(max_log2: u64) {
     // O1: nesting deeper than 32 (recursion without a depth limit)
     for depth in [33u32, 64, 256, 2000] {
-        let mut g = Gen { r: Rng::new(depth as u64), dup: false, hostile: false };
+        let mut g = Gen { r: Rng::new(depth as u64), dup: false, hostile: false, tbudget: 1 << 40, vbudget: 1 << 40 };
         let t = gen_deep(&mut g, depth);
         let j = gen_value(&mut g, &t);
         let t0 = std::time::Instant::now();
-        let r = guarded(|| t.serial_value(&j).ok().and_then(|b| { let mut c = Cursor::new(&b[..]); t.to_json(&mut c).ok().map(|v| v == j) }));
+        // JSON -> bytes -> JSON -> bytes -> JSON: the second round must be the identity
+        let r = guarded(|| t.serial_value(&j).ok().and_then(|b| { let mut c = Cursor::new(&b[..]); t.to_json(&mut c).ok() })
+            .and_then(|v| t.serial_value(&v).ok().and_then(|b2| { let mut c = Cursor::new(&b2[..]); t.to_json(&mut c).ok().map(|v2| v2 == v) })));
         let sb = to_bytes(&t);
         let r2 = guarded(|| from_bytes::<Type>(&sb).map(|x| x == t).unwrap_or(false));
         println!("{}", json!({"k":"obs","id":"O1","depth":depth,"json_roundtrip":format!("{:?}", r),"schema_roundtrip":format!("{:?}", r2),"ms":t0.elapsed().as_millis() as u64}));
+    }
+    // O4: duration text whose components overflow u64 (checked build: panic; release: wraps)
+    for text in ["213503982335d", "18446744073709551615ms 1ms"] {
+        let r = guarded(|| Type::Duration.serial_value(&json!(text)).map(|b| hex(&b)).map_err(|e| short(&e.display(false))));
+        println!("{}", json!({"k":"obs","id":"O4","text":text,"result":format!("{:?}", r)}));
     }
     // O2: zero-width elements: work proportional to the declared count
     for count in [65536u64, 1 << 17, 1 << 20, 1 << 24] {
